@@ -468,7 +468,10 @@ class SpawnBase(object):
         # will never match anything in which case we stop only on EOF.
         cre = re.compile(self._coerce_expect_string('.{%d}' % size), re.DOTALL)
         # delimiter default is EOF
-        index = self.expect([cre, self.delimiter])
+        # The next `size` characters must come from the front of the pending
+        # text: a search window would let the pattern match further back and
+        # silently drop what precedes the match.
+        index = self.expect([cre, self.delimiter], searchwindowsize=None)
         if index == 0:
             ### FIXME self.before should be ''. Should I assert this?
             return self.after
